@@ -57,6 +57,8 @@ type Solver struct {
 	Time     time.Duration
 	dead     bool
 	extraOpen bool
+	resetMode bool
+	ndump int
 	SlowLog func(time.Duration, Result)
 	SlowThreshold time.Duration
 	HadError bool
@@ -248,6 +250,9 @@ func (s *Solver) Check(pc *PCNode, extra *Term) Result {
 			extra = nil
 		}
 	}
+	if s.resetMode {
+		return s.checkReset(pc, extra)
+	}
 	t0 := time.Now()
 	if s.extraOpen {
 		s.popExtra()
@@ -286,6 +291,10 @@ func (s *Solver) Check(pc *PCNode, extra *Term) Result {
 	s.Time += d
 	if s.SlowLog != nil && d > s.SlowThreshold {
 		s.SlowLog(d, res)
+		if dir := os.Getenv("VCHECK_DUMPSLOW"); dir != "" {
+			s.ndump++
+			os.WriteFile(fmt.Sprintf("%s/slow%d_%s.smt2", dir, s.ndump, res), []byte(s.Standalone(pc, extra, "")), 0o644)
+		}
 	}
 	return res
 }
@@ -399,5 +408,128 @@ func (s *Solver) EndModel() {
 		s.popExtra()
 		s.flush()
 		s.extraOpen = false
+	}
+}
+
+// Standalone renders pc /\ extra as a self-contained SMT-LIB2 script (for cross-checking with
+// other solvers and for non-incremental solving of hard verdict queries).
+func (s *Solver) Standalone(pc *PCNode, extra *Term, logic string) string {
+	saved := struct {
+		defined, adefined map[uint32]bool
+		defs, adefs       [][]uint32
+		sb                strings.Builder
+	}{s.defined, s.adefined, s.defs, s.adefs, s.sb}
+	s.defined, s.adefined = map[uint32]bool{}, map[uint32]bool{}
+	s.defs, s.adefs = [][]uint32{nil}, [][]uint32{nil}
+	s.sb = strings.Builder{}
+	var chain []*PCNode
+	for n := pc; n != nil; n = n.parent {
+		chain = append(chain, n)
+	}
+	var asserts []string
+	for i := len(chain) - 1; i >= 0; i-- {
+		asserts = append(asserts, s.ref(chain[i].cond))
+	}
+	if extra != nil {
+		asserts = append(asserts, s.ref(extra))
+	}
+	var out strings.Builder
+	if logic != "" {
+		fmt.Fprintf(&out, "(set-logic %s)\n", logic)
+	}
+	out.WriteString(s.sb.String())
+	for _, a := range asserts {
+		fmt.Fprintf(&out, "(assert %s)\n", a)
+	}
+	out.WriteString("(check-sat)\n")
+	s.defined, s.adefined, s.defs, s.adefs, s.sb = saved.defined, saved.adefined, saved.defs, saved.adefs, saved.sb
+	return out.String()
+}
+
+
+// checkReset solves pc /\ extra from scratch ((reset) + full script): the solver then runs its
+// non-incremental strategy (preprocessing + bit-blasting), which is far stronger on the arithmetic
+// heavy queries than the incremental core. The context stays open for Eval until the next Check.
+func (s *Solver) checkReset(pc *PCNode, extra *Term) Result {
+	t0 := time.Now()
+	s.defined, s.adefined = map[uint32]bool{}, map[uint32]bool{}
+	s.defs, s.adefs = [][]uint32{nil}, [][]uint32{nil}
+	s.stack = nil
+	s.extraOpen = false
+	s.sb.Reset()
+	var chain []*PCNode
+	for n := pc; n != nil; n = n.parent {
+		chain = append(chain, n)
+	}
+	var asserts []string
+	for i := len(chain) - 1; i >= 0; i-- {
+		asserts = append(asserts, s.ref(chain[i].cond))
+	}
+	if extra != nil {
+		asserts = append(asserts, s.ref(extra))
+	}
+	body := s.sb.String()
+	s.sb.Reset()
+	fmt.Fprintf(&s.sb, "(reset)\n(set-option :timeout %d)\n(set-option :produce-models true)\n", s.timeoutMs)
+	s.sb.WriteString(body)
+	for _, a := range asserts {
+		fmt.Fprintf(&s.sb, "(assert %s)\n", a)
+	}
+	s.sb.WriteString("(check-sat)\n")
+	s.flush()
+	res := s.readResult()
+	s.NQueries++
+	switch res {
+	case Sat:
+		s.NSat++
+	case Unsat:
+		s.NUnsat++
+	default:
+		s.NUnknown++
+	}
+	s.Time += time.Since(t0)
+	return res
+}
+
+// oneShot runs an external solver process on a standalone script; only the verdict is used.
+func oneShot(script string, timeout time.Duration, name string, args ...string) Result {
+	f, err := os.CreateTemp("", "vq-*.smt2")
+	if err != nil {
+		return Unknown
+	}
+	defer os.Remove(f.Name())
+	f.WriteString(script)
+	f.Close()
+	cmd := exec.Command(name, append(args, f.Name())...)
+	done := make(chan []byte, 1)
+	go func() {
+		out, _ := cmd.Output()
+		done <- out
+	}()
+	select {
+	case out := <-done:
+		txt := strings.TrimSpace(string(out))
+		if strings.Contains(txt, "(error") {
+			return Unknown
+		}
+		switch {
+		case strings.HasPrefix(txt, "unsat"):
+			return Unsat
+		case strings.HasPrefix(txt, "sat"):
+			return Sat
+		}
+		return Unknown
+	case <-time.After(timeout):
+		if cmd.Process != nil {
+			cmd.Process.Kill()
+		}
+		return Unknown
+	}
+}
+
+func (s *Solver) setTimeout(ms int) {
+	s.timeoutMs = ms
+	if s.kind != "cvc5" {
+		s.send(fmt.Sprintf("(set-option :timeout %d)\n", ms))
 	}
 }
